@@ -203,7 +203,7 @@ def _configs(tier, salts):
                         depth = 0
                     out.append((cfg, {"depth": depth, "letters": LETTERS}))
         if salt == 0 or tier == "thorough":
-            for name, cfg in cfgs.broad_cfgs(salt=salt, budgets=(3, 9, 30, 70), reg_budgets=(3, 8)):
+            for name, cfg in cfgs.broad_cfgs(salt=salt, budgets=(3, 9, 30, 70), reg_budgets=(3, 8), overlays=("avg",)):
                 depth = 1 if (cfg.get("memo", True) and cfg["maxfun"] == 9 and "reg" not in cfg["broad_flags"]) else 0
                 out.append((cfg, {"depth": depth, "letters": ["nan", "nan1", "inf"]}))
         if salt == 0:
